@@ -228,6 +228,39 @@ func runRelay(c *Case, r *Run, script []relayEv, gapMode int, window int, chunk 
 			if !anyEnd {
 				anyEnd, firstEnd, otherHealthy = true, s.name+"-rst", o.ended == "" && !o.werr
 			}
+		case "rstw", "both":
+			// "rstw": the connection of this side is reset as a whole — the
+			// relay's Read from it and its Write towards it fail in the same
+			// instant.  "both": the two connections are reset in the same
+			// instant.  Either way both copy directions can end with an error of
+			// their own (not with the echo of the other one's Close), which one
+			// side ending alone never produces.
+			ends := []*side{s}
+			if ev.kind[1:] == "both" {
+				ends = []*side{s, o}
+			}
+			skip := false
+			for _, e := range ends {
+				if e.ended != "" {
+					skip = true
+				}
+			}
+			if skip {
+				continue
+			}
+			synctest.Wait()
+			var fs []Failure
+			for _, e := range ends {
+				e.ended = "rst"
+				e.cutAt = e.written
+				fs = append(fs, Failure{H: e.app.Out(), Cut: true, At: e.cutAt, Err: endErr.err}, Failure{H: e.relay.Out(), Err: endErr.err})
+			}
+			FailTogether(fs...)
+			r.Count("relay_resets_of_both_directions_at_once", 1)
+			synctest.Wait()
+			if !anyEnd {
+				anyEnd, firstEnd, otherHealthy = true, s.name+"-"+ev.kind[1:], false
+			}
 		case "stall":
 			// this side's application stops reading: with a bounded window the
 			// relay's writes towards it block
@@ -1058,7 +1091,15 @@ func TestCheck(t *testing.T) {
 			[]relayEv{{x + "w", 1}, {y + "w", 700}, {x + "rst", 0}, {y + "eof", 0}},
 			[]relayEv{{x + "werr", 0}, {y + "w", 700}},
 			[]relayEv{{x + "w", 700}, {x + "werr", 0}, {y + "w", 70000}},
-			[]relayEv{{x + "stall", 0}, {y + "w", 70000}, {x + "rst", 0}})
+			[]relayEv{{x + "stall", 0}, {y + "w", 70000}, {x + "rst", 0}},
+			// both copy directions fail on their own
+			[]relayEv{{x + "rstw", 0}},
+			[]relayEv{{y + "w", 700}, {x + "rstw", 0}},
+			[]relayEv{{x + "stall", 0}, {y + "w", 70000}, {x + "rstw", 0}},
+			[]relayEv{{x + "w", 700}, {x + "stall", 0}, {y + "w", 70000}, {y + "w", 70000}, {x + "rstw", 0}},
+			[]relayEv{{x + "both", 0}},
+			[]relayEv{{x + "w", 700}, {y + "w", 1}, {x + "both", 0}},
+			[]relayEv{{x + "stall", 0}, {y + "w", 70000}, {x + "both", 0}})
 	}
 	r.Case("relay-end-errors", func(c *Case) {
 		for ek := range endErrors {
